@@ -1406,6 +1406,26 @@ def regenerate(repo_src, gen_dir, quiet=False):
             text = "(* GENERATED: the subtotal-strategy translator failed: %s *)\n" % _coq_comment(repr(ex))
             changed = _write_if_changed(os.path.join(gen_dir, name), text)
             report["gen_files"]["Gen/" + name] = {"sha256": _sha(text), "rewritten": changed}
+    # further translators: every module harness/translate/x_<name>.py with
+    #   GEN_FILES = ("<Name>Src.v", ...)  and  regenerate(repo_src, gen_dir, report)
+    # is called here in sorted order, with the same crash-safe convention (a bug of ours leaves
+    # files without definitions, so the obligations that mention them break: fail closed).
+    import glob
+    import importlib
+
+    for path in sorted(glob.glob(os.path.join(os.path.dirname(os.path.abspath(__file__)), "x_*.py"))):
+        modname = os.path.splitext(os.path.basename(path))[0]
+        gen_files = ()
+        try:
+            mod = importlib.import_module("harness.translate." + modname)
+            gen_files = tuple(getattr(mod, "GEN_FILES", ()))
+            mod.regenerate(repo_src, gen_dir, report)
+        except Exception as ex:
+            report["errors"].append("%s: %r" % (modname, ex))
+            for name in gen_files:
+                text = "(* GENERATED: translator %s failed: %s *)\n" % (modname, _coq_comment(repr(ex)))
+                changed = _write_if_changed(os.path.join(gen_dir, name), text)
+                report["gen_files"]["Gen/" + name] = {"sha256": _sha(text), "rewritten": changed}
     report["n_translated"] = len(report["methods_translated"])
     report["n_unavailable"] = len(report["unavailable"])
     if not quiet:
